@@ -182,3 +182,102 @@ class RmWatcher(object):
             else:
                 bad.add('noescape')
         return bad
+
+
+@register('circus.arbiter:Arbiter.iter_watchers')
+class IterWatchers(object):
+    def from_model(self, m):
+        return []
+
+    def enumerate(self):
+        for prios in ([], [0], [1, 2], [2, 1], [0, 5, 3], [3, 3, 1], [7, 0, 7, 2]):
+            for reverse in (True, False):
+                yield {'priorities': prios, 'reverse': reverse}
+
+    def run(self, inp):
+        a = bare_arbiter(['w%d' % i for i in range(len(inp['priorities']))])
+        for w, p in zip(a.watchers, inp['priorities']):
+            w.priority = p
+        res = a.iter_watchers(reverse=inp['reverse'])
+        return {'order': [w.priority for w in res], 'same_set': sorted(map(id, res)) == sorted(map(id, a.watchers)),
+                'n': len(res)}
+
+    def check(self, inp, obs):
+        bad = set()
+        if obs['n'] != len(inp['priorities']):
+            bad.add('post[0]')
+        if not obs['same_set']:
+            bad |= set(['post[1]', 'post[2]', 'post[distinct-kept]'])
+        o = obs['order']
+        ok = all((o[i] >= o[i + 1]) if inp['reverse'] else (o[i] <= o[i + 1]) for i in range(len(o) - 1))
+        if not ok:
+            bad.add('post[sorted-by-priority]')
+        return bad
+
+
+@register('circus.arbiter:Arbiter._start_watchers')
+class StartWatchers(object):
+    """real Arbiter._start_watchers / iter_watchers on a virtual clock; Watcher._start replaced by a recorder that
+    'spawns' (records a time-stamped entry) and takes some time"""
+    def from_model(self, m):
+        return []
+
+    def enumerate(self):
+        for prios in ([0], [1, 2], [2, 1], [0, 5, 3], [3, 3, 1], [7, 0, 7, 2]):
+            for delay in (0.0, 0.5, 2.0):
+                for autostart in ('all', 'but-first'):
+                    yield {'priorities': prios, 'warmup_delay': delay, 'autostart': autostart}
+
+    def run(self, inp):
+        import circus.arbiter as A
+        from tornado import concurrent
+        a = bare_arbiter(['w%d' % i for i in range(len(inp['priorities']))])
+        a.warmup_delay = inp['warmup_delay']
+        now = [0.0]
+        log = []
+
+        def done(v=None):
+            f = concurrent.Future()
+            f.set_result(v)
+            return f
+
+        def vsleep(d):
+            now[0] += d
+            return done()
+        for i, (w, p) in enumerate(zip(a.watchers, inp['priorities'])):
+            w.priority = p
+            w.autostart = not (inp['autostart'] == 'but-first' and i == 0)
+
+            def _start(w=w):
+                log.append((w.name, w.priority, now[0]))
+                now[0] += 0.25
+                log.append((w.name, w.priority, now[0]))
+                return done()
+            w._start = _start
+        saved = A.tornado_sleep
+        A.tornado_sleep = vsleep
+        obs = {}
+        try:
+            res, exc = run_coroutine(lambda: a._start_watchers())
+        finally:
+            A.tornado_sleep = saved
+        if exc is not None:
+            obs['raised'] = type(exc).__name__
+        obs['spawns'] = log
+        return obs
+
+    def check(self, inp, obs):
+        bad = set()
+        if 'raised' in obs:
+            return set(['noescape'])
+        sp = obs['spawns']
+        for i in range(len(sp)):
+            for j in range(i + 1, len(sp)):
+                if sp[i][0] != sp[j][0]:
+                    if sp[i][1] < sp[j][1] or sp[j][2] < sp[i][2] + inp['warmup_delay'] - 1e-9:
+                        bad.add('post[priority-order-and-pacing]')
+        started = set(s[0] for s in sp)
+        want = set('w%d' % i for i in range(len(inp['priorities'])) if not (inp['autostart'] == 'but-first' and i == 0))
+        if started != want:
+            bad.add('post[priority-order-and-pacing]')
+        return bad
